@@ -580,14 +580,11 @@ func c08ItemLoops(c *Ctx, a *sketchAnchors) {
 					}
 					ct := tc.Of(iff.Cond)
 					mentionsN := false
-					ct.walk(func(x *Term) bool {
-						if x.Op == "call" && strings.HasSuffix(x.Sym, "DecodeUvarint64") {
-							mentionsN = true
-						}
-						return !mentionsN
-					})
+					if ct.Op == "bin" && len(ct.Args) == 2 {
+						mentionsN = isCountDerived(ct.Args[0], 0) || isCountDerived(ct.Args[1], 0)
+					}
 					_ = si
-					c.R.check(mentionsN, rule, key, shortFn(f), c.ipos(iff), "loop exit controlled by the decoded item count (or an error return)", "exit condition "+ct.Key())
+					c.R.check(mentionsN, rule, key, shortFn(f), c.ipos(iff), "loop exit decided by comparing with the decoded item count itself (a counter against N, or N minus what was consumed against 0), or an error return", "exit condition "+ct.Key())
 				}
 			}
 		}
@@ -621,6 +618,40 @@ func blockReturnsErr(c *Ctx, b *ssa.BasicBlock) bool {
 		default:
 			return false
 		}
+	}
+	return false
+}
+
+// isCountDerived: the term is the announced item count N (first result of DecodeUvarint64), possibly
+// converted, or "N minus what has been consumed so far" carried by a loop φ. A value that mixes N with
+// anything else (min(N, len(buffer)), N/2, …) is not.
+func isCountDerived(t *Term, depth int) bool {
+	if t == nil || depth > 6 {
+		return false
+	}
+	switch t.Op {
+	case "extract":
+		return t.Sym == "0" && t.Args[0].Op == "call" && strings.HasSuffix(t.Args[0].Sym, "DecodeUvarint64")
+	case "conv":
+		return isCountDerived(t.Args[0], depth+1)
+	case "cycle":
+		return true
+	case "bin":
+		if t.Sym == "-" {
+			return isCountDerived(t.Args[0], depth+1)
+		}
+	case "phi":
+		base := false
+		for _, a := range t.Args {
+			switch {
+			case a.Op == "bin" && a.Sym == "-" && (a.Args[0].Op == "cycle" || a.Args[0].Op == "phi"):
+			case isCountDerived(a, depth+1):
+				base = true
+			default:
+				return false
+			}
+		}
+		return base
 	}
 	return false
 }
